@@ -126,7 +126,7 @@ func Tables(c explore.Chooser) *prog.Program {
 	}
 	colTag := s.Pick("col.tag", "", "`json:\"slot\"`", "`json:\"-\"`", "`gomacro:\"ignore\"`", "`json:\"s,omitempty\"`")
 	colName := s.Pick("col.name", "Slot", "slot", "SlotValue", "X")
-	fkForm := s.Pick("fk.form", "id-type-prefix", "id-type-suffix", "tag-int64", "tag-nullable", "nullable-wrapper-no-tag", "self-reference", "unknown-target", "sub-package-id")
+	fkForm := s.Pick("fk.form", "id-type-prefix", "id-type-suffix", "tag-int64", "tag-nullable", "nullable-wrapper-no-tag", "self-reference", "unknown-target")
 	onDelete := s.Pick("fk.on-delete", "", "CASCADE", "SET NULL")
 	guard := s.Pick("guard", "none", "literal", "enum-placeholder", "unexported-literal", "string-enum-placeholder")
 	userDir := s.Pick("user.directive", userDirectives...)
@@ -237,6 +237,8 @@ func Tables(c explore.Chooser) *prog.Program {
 	rename := map[string]string{}
 	if tableName != "User" {
 		rename["User"] = tableName
+		rename["IdUser"] = "Id" + tableName
+		rename["UserId"] = tableName + "Id"
 	}
 	finish := func(pkgName, body string, isExt bool) string {
 		for from, to := range rename {
